@@ -269,6 +269,10 @@ def runCall (g : Gm) (mk : Rat → Mdl) (st : St) (c : CallRec) : St :=
        else if c.dump.length != 1 || !(c.dump.all (fun n => n.n == 0 && n.acts.all (fun a => a.1 == 0 && a.2 == 0))) then
           fails ++ [s!"{cn} advance_restart_not_clean after ({c.a},{c.k}) nodes={c.dump.length}"] else fails)
     else fails
+  -- the generative model is only ever asked about actions that exist in the state it is asked about (UCT and the rollout)
+  let fails := match c.log.find? (fun st => decide (g.nA st.s ≤ st.a)) with
+    | some st => fails ++ [s!"{cn} model_called_with_invalid_action state={st.s} action={st.a} actions={g.nA st.s}"]
+    | none => fails
   -- promotion followed by simulations: the promoted subtree is still there, only extended (`advance_extends_subtree`)
   let fails := if hit && c.iters != 0 && !(extendsDump (subtreeOf st.prev (c.a, c.k)) c.dump) then
       fails ++ [s!"{cn} advance_lost_subtree after ({c.a},{c.k}) iters={c.iters}: a node of the promoted subtree is missing or shrank"] else fails
